@@ -24,8 +24,8 @@ for pid in ids:
         "engine": "gosym",
         "level_claimed": {
             "category": "model_checking",
-            "text": s.get("level_text", "bounded symbolic execution of the real functions; every branch and assertion decided by z3 for all values of the symbolic inputs within the stated bounds"),
-            "design_ref": s.get("design_ref", "DESIGN.md §4 " + pid),
+            "text": s.get("level_text", "bounded symbolic execution of the real functions (go/ssa of /repo's working tree): operation, fault, crash-point and schedule choices are explored exhaustively by forking within the stated bounds, every branch and assertion over the symbolic data (bytes, keys, versions, timestamps, lengths, payloads) is decided by z3 for all values; a counterexample is replayed natively against the real build before it is reported. Nothing is claimed outside the bounds and kernels listed in the evidence file"),
+            "design_ref": s.get("design_ref", "DESIGN.md §9.3 (results), §4 " + pid + " (plan)"),
         },
         "level_note": s.get("level_note", "; ".join(s.get("outside_claim", []) + s.get("stubs", []) + s.get("assumptions", [])) or "see evidence"),
         "technique": "symbolic execution of go/ssa + z3 (bounded, solver-decided)",
